@@ -183,7 +183,7 @@ pub fn run(ctx: &mut Ctx) {
         "estimate formula from the docs: sign*q*(price - avg_entry) - (q/q_max)*fees_enter; tolerance 1e-18 relative".into(),
     ];
     ctx.run_regressions::<UnrealisedPnl>();
-    ctx.run::<UnrealisedPnl>(ctx.tier.pick(4_000, 100_000));
+    ctx.run::<UnrealisedPnl>(ctx.tier.pick(60_000, 1_000_000));
 }
 
 pub fn replay(ctx: &mut Ctx, doc: &Value) -> bool {
